@@ -55,6 +55,7 @@ def run(ck):
         raise core.Machinery("oracle cross-validation failed: MaxCover")
     run_pack_groups(ck, groups, {"C10"}, "C10 covering guarantees", chunk=6000)
     big = gen.planted_covers(ck.rng, 40 if q else 600, maxitems=80 if q else 300)
+    big += gen.exact_fill_covers()
     for g in big:
         g["wit"] = []; g["opt"] = 0
     big += [fam_dec(k) for k in ((1, 2) if q else (1, 2, 3, 5, 8))] + [fam_tq(k) for k in ((1, 2) if q else (1, 2, 3, 5, 8))]
